@@ -19,6 +19,16 @@ Definition rebuild (n : nat) (U : cmat F) (d : nat -> F) : cmat F := mmul n (mmu
 Definition eig_clip (n : nat) (U : cmat F) (w : nat -> F) : cmat F := rebuild n U (fun k => clip0 (w k)).
 (* the contract of eigh: the columns of U are orthonormal *)
 Definition unitary (n : nat) (U : cmat F) : Prop := meq n n (mmul n (cadj U) U) mid.
+(* the contract of eigh for the matrix Y the code hands to it *)
+Definition eigh_contract (n : nat) (Y U : cmat F) (w : nat -> F) : Prop := unitary n U /\ meq n n Y (rebuild n U w).
+(* State.calc_proj_ineq_constraint(_with_var), Povm (per element): density / element = op_of_vec v; (w, U) = eigh(that);
+   new_vec = coefficients of U clip(w) U^dagger  (to_vec_from_density_matrix_with_sparsity = Re <B_a, .>) *)
+Definition vec_proj_ineq (d : nat) (B : nat -> cmat F) (U : cmat F) (w : nat -> F) : rvec F := vec_of_op d B (eig_clip d U w).
+(* Gate.calc_proj_ineq_constraint(_with_var), MProcess (per outcome): choi = choi_of_hs hs; (w, U) = eigh(choi);
+   new_hs = hs_of_choi (U clip(w) U^dagger), flattened *)
+Definition hs_proj_ineq (d : nat) (B : nat -> cmat F) (U : cmat F) (w : nat -> F) : rvec F :=
+  vecr (d * d) (hs_of_choi d B (eig_clip (d * d) U w)).
 End C04EigClip.
 Arguments cdiag {F} d _ _. Arguments clip0 {F} x. Arguments rebuild {F} n U d _ _. Arguments eig_clip {F} n U w _ _.
-Arguments unitary {F} n U.
+Arguments unitary {F} n U. Arguments eigh_contract {F} n Y U w.
+Arguments vec_proj_ineq {F} d B U w _. Arguments hs_proj_ineq {F} d B U w _.
